@@ -45,6 +45,8 @@ def canon(e):
 def to_sympy(e, env):
     """ast expression -> sympy term.  env: {canonical source string of a name / attribute path: sympy term}."""
     S = sp()
+    if isinstance(e, (ast.BinOp, ast.Call, ast.Subscript)) and canon(e) in env:
+        return env[canon(e)]              # a compound expression declared as one quantity (e.g. `requested_energy / battery_cap`)
     if isinstance(e, ast.Constant) and isinstance(e.value, (int, float)) and not isinstance(e.value, bool):
         return S.Integer(e.value) if isinstance(e.value, int) else S.Rational(str(e.value))
     if isinstance(e, (ast.Name, ast.Attribute)):
